@@ -668,9 +668,11 @@ Section Bodies.
     Variable d : nat.
     Hypothesis Hstmts : forall ca, spec d (call (NStatements ca)) Rgrow.
 
+    (* entered with an empty match stack (parse / parse_instr_eval), parse_internal ends with exactly the root on it: nothing else is left *)
     Definition Rroot : Rel pnode := fun n p st p' st' =>
       st = [] ->
-      (pn_kind n = Ast.KFile /\ has_more p' = false) \/ (n = noop_node /\ has_more p' = false).
+      st' = [n] /\
+      ((pn_kind n = Ast.KFile /\ has_more p' = false) \/ (n = noop_node /\ has_more p' = false)).
 
     Lemma parse_internal_ok : spec d (parse_internal_b A call) Rroot.
     Proof.
@@ -700,7 +702,7 @@ Section Bodies.
         eapply use_build_match_q; [pick_gext|fin|reflexivity|]. intros sb Gb0 Gb1 Bp Bs Bl. cbv beta.
         gstep (spec_get_stack d). match goal with H : _ /\ _ /\ ?l = stack _ |- _ => destruct H as (Rp4 & Rs4 & Ra4); subst l end.
         rewrite Bs. cbn [firstn app]. gdone.
-        intros Hst. left. split; [reflexivity|]. rewrite Rp4, Bp, Rp3. exact Hmore.
+        intros Hst. split; [rewrite Rs4, Bs; reflexivity|]. left. split; [reflexivity|]. rewrite Rp4, Bp, Rp3. exact Hmore.
       - gstep (sWS d true). gstep (spec_get_pos d).
         match goal with H : _ /\ _ /\ ?p = pos _ |- context [has_more ?p] => destruct H as (Rp3 & Rs3 & Ra3); subst p end.
         match goal with |- context [has_more ?p] => destruct (has_more p) eqn:Hmore end; [exact I|].
@@ -709,7 +711,7 @@ Section Bodies.
         match goal with H : _ /\ stack ?sp = stack ?sq ++ [noop_node] |- _ => destruct H as (Rp6 & Rs6) end.
         rewrite Rs6.
         match goal with |- context [match ?l ++ [noop_node] with _ => _ end] => destruct l as [|n0 rest] eqn:El end.
-        + cbn [app]. gdone. intros Hst. right. split; [reflexivity|]. rewrite Rp5, Rp6, Rp3. exact Hmore.
+        + cbn [app]. gdone. intros Hst. split; [rewrite Rs5, Rs6; reflexivity|]. right. split; [reflexivity|]. rewrite Rp5, Rp6, Rp3. exact Hmore.
         + cbn [app]. gdone. intros Hst. exfalso.
           assert (L0 : List.length (n0 :: rest) = 0); [|discriminate]. rewrite <- El.
           pose proof (f_equal (@List.length pnode) Hst) as Hst0. cbn [List.length] in Hst0. fin.
@@ -833,7 +835,7 @@ Section Bodies.
     intros n s' [Gs Rr]. unfold root_ok.
     pose proof (gext_buf _ _ Gs) as Hb. cbn [pos s0 pos_begin buf] in Hb.
     assert (Hend : has_more (pos s') = false /\ (pn_kind n = Ast.KFile \/ n = noop_node)).
-    { destruct (Rr eq_refl) as [[Hk Hm]|[Hk Hm]]; auto. }
+    { destruct (Rr eq_refl) as [_ [[Hk Hm]|[Hk Hm]]]; auto. }
     destruct Hend as [Hm Hk]. apply has_more_false in Hm. pose proof (gext_len_buf _ _ Gs) as Hl.
     split; [exact Hb|]. split; [apply (gext_wf _ _ Gs)|]. split; [rewrite <- Hb; lia|]. split; [apply (gext_depth _ _ Gs)|exact Hk].
   Qed.
@@ -850,4 +852,18 @@ Section Bodies.
   Theorem parse_root bytes file n s' :
     parse_full A T K G bytes file = Ok (n, s') -> root_ok bytes n s'.
   Proof. intros E. pose proof (parse_full_ok bytes file) as H. rewrite E in H. exact H. Qed.
+
+  (* no leaked nodes: a successful parse ends with exactly the root on the match stack -- every other node that was pushed has been folded
+     into the tree by build_match or dropped by a roll-back (the C++ then moves the root out and clears the vector) *)
+  Theorem parse_stack bytes file n s' :
+    parse_full A T K G bytes file = Ok (n, s') -> stk (user s') = [n] /\ fname (user s') = file.
+  Proof.
+    intros E. unfold parse_full in E.
+    set (s0 := mkState (pos_begin bytes) 0 (mkPS [] file 0%N)) in *.
+    assert (O0 : okst 0 s0) by (split; [apply wf_pos_begin|split; cbn [depth s0]; lia]).
+    assert (Hst : forall ca, spec 0 (P A T K G parse_fuel (NStatements ca)) Rgrow).
+    { intros ca. apply (P_ok parse_fuel (NStatements ca) 0 I). apply parse_fuel_enough. }
+    pose proof (parse_internal_ok _ 0 Hst s0 O0) as H. rewrite E in H. destruct H as [Gs Rr].
+    split; [exact (proj1 (Rr eq_refl))|exact (gext_fname _ _ Gs)].
+  Qed.
 End Bodies.
